@@ -82,6 +82,17 @@ Fixpoint star_c (g : bool) (p : ascii -> bool) (pos : nat) (prev : option ascii)
   | EmptyString => k here
   end.
 
+(* (?:a)* : every iteration must consume input; fuel = bytes left + 1 *)
+Fixpoint star_loop (g : bool) (step : mstate -> (mstate -> option mstate) -> option mstate)
+         (k : mstate -> option mstate) (fuel : nat) (st : mstate) {struct fuel} : option mstate :=
+  match fuel with
+  | O => None
+  | S f =>
+      let more := fun _ : unit =>
+        step st (fun st' => if Nat.eqb (ms_pos st') (ms_pos st) then None else star_loop g step k f st') in
+      if g then orelse (more tt) (fun _ => k st) else orelse (k st) more
+  end.
+
 Fixpoint mt (r : re) (st : mstate) (k : mstate -> option mstate) {struct r} : option mstate :=
   match r with
   | REps => k st
@@ -93,15 +104,7 @@ Fixpoint mt (r : re) (st : mstate) (k : mstate -> option mstate) {struct r} : op
   | RCat a b => mt a st (fun st' => mt b st' k)
   | RAlt a b => orelse (mt a st k) (fun _ => mt b st k)
   | RStarC g p => star_c g p (ms_pos st) (ms_prev st) (ms_rest st) (ms_caps st) k
-  | RStar g a =>
-      (fix loop (fuel : nat) (st : mstate) {struct fuel} : option mstate :=
-         match fuel with
-         | O => None
-         | S f =>
-             let more := fun _ : unit =>
-               mt a st (fun st' => if Nat.eqb (ms_pos st') (ms_pos st) then None else loop f st') in
-             if g then orelse (more tt) (fun _ => k st) else orelse (k st) more
-         end) (S (String.length (ms_rest st))) st
+  | RStar g a => star_loop g (mt a) k (S (String.length (ms_rest st))) st
   | RGroup n a =>
       mt a st (fun st' =>
         k {| ms_pos := ms_pos st'; ms_prev := ms_prev st'; ms_rest := ms_rest st';
